@@ -46,6 +46,7 @@ fn main() {
                 eprintln!("unknown property {id}");
                 std::process::exit(2);
             };
+            install_crash_handler(None);
             let opts = RunOpts { thorough, seed, threads, scale, only };
             // Known findings: re-check their replays in strict mode and
             // print one line per listed finding.
@@ -120,6 +121,7 @@ fn main() {
                 eprintln!("unknown subcheck {sub}");
                 std::process::exit(2);
             };
+            install_crash_handler(Some(path.clone()));
             let known = std::sync::Arc::new(load_known());
             let (ctx, r) = run_case(prop.id, sc, &bytes, &known, strict, true);
             if !quiet {
